@@ -67,8 +67,24 @@ theorem nu_le (s s' : St) (t : Nat) (hlt : t < s.th.length) (hlen : s'.th.length
   · subst hu; exact hown
   · exact rank2_other_le s s' u (hoth u hu) (hi u hu)
 
-/-- **Every step strictly decreases the measure or is a retry-loop step.**  No fairness, no strategy, no invariant needed. -/
-theorem nu_of_step {s s' : St} (hs : Step s s') : muLt2 s' s ∨ RetryStep s s' := by
+/-- the eleven retry-loop steps of thread `t`, with the state they lead to -/
+inductive RetryShape (s : St) (t : Nat) : St → Prop
+  | a0 (hloc : (s.get t).loc = .a0) (hg : s.E = none) : RetryShape s t ({ s with E := some t }.at t .a1)
+  | a1fail (hloc : (s.get t).loc = .a1) (hg : s.V ≠ none) : RetryShape s t (s.at t .a7)
+  | a7 (hloc : (s.get t).loc = .a7) (hg : True) : RetryShape s t ({ s with E := none }.at t .a8)
+  | a8 (hloc : (s.get t).loc = .a8) (hg : True) : RetryShape s t ({ s with ecw := s.ecw ++ [t] }.at t .a9)
+  | a9 (hloc : (s.get t).loc = .a9) (hg : t ∉ s.ecw) : RetryShape s t (s.at t .a0)
+  | a9timeout (hloc : (s.get t).loc = .a9) (hg : t ∈ s.ecw) : RetryShape s t ({ s with ecw := s.ecw.erase t }.at t .a0)
+  | g0wait (hloc : (s.get t).loc = .g0) (hg : s.tc > 0) : RetryShape s t (s.at t .g1)
+  | g1 (hloc : (s.get t).loc = .g1) (hg : True) : RetryShape s t ({ s with icw := s.icw ++ [t] }.at t .g2)
+  | g2 (hloc : (s.get t).loc = .g2) (hg : t ∉ s.icw) : RetryShape s t (s.at t .g3)
+  | g2timeout (hloc : (s.get t).loc = .g2) (hg : t ∈ s.icw) : RetryShape s t ({ s with icw := s.icw.erase t }.at t .g3)
+  | g3 (hloc : (s.get t).loc = .g3) (hg : True) : RetryShape s t ({ s with icw := s.icw.tail }.at t .g0)
+
+/-- **Every step strictly decreases the measure or is a retry-loop step** (of a thread `t`, in one of eleven shapes).  No
+fairness, no strategy, no invariant needed. -/
+theorem nu_of_step_shape {s s' : St} (hs : Step s s') :
+    muLt2 s' s ∨ (RetryStep s s' ∧ ∃ t, t < s.th.length ∧ RetryShape s t s') := by
   cases hs
   case ret t hlt hloc hg =>
     have hloc' : (s.th.getD t {}).loc = _ := hloc
@@ -99,6 +115,7 @@ theorem nu_of_step {s s' : St} (hs : Step s s') : muLt2 s' s ∨ RetryStep s s' 
   case a0 t hlt hloc hg =>
     have hloc' : (s.th.getD t {}).loc = _ := hloc
     right
+    refine ⟨?_, t, hlt, RetryShape.a0 hloc hg⟩
     refine nu_le s _ t hlt (by simp [St.at, St.set])
       (fun u hu => by simp only [St.at, St.set, St.get, getD_set _ _ _ _ hlt, hu, if_false]) ?_ ?_ ?_ ?_ ?_
     · simp only [St.at, St.set, St.get, getD_set _ _ _ _ hlt, if_true, callW, hloc']; simp
@@ -109,6 +126,7 @@ theorem nu_of_step {s s' : St} (hs : Step s s') : muLt2 s' s ∨ RetryStep s s' 
   case a1fail t hlt hloc hg =>
     have hloc' : (s.th.getD t {}).loc = _ := hloc
     right
+    refine ⟨?_, t, hlt, RetryShape.a1fail hloc hg⟩
     refine nu_le s _ t hlt (by simp [St.at, St.set])
       (fun u hu => by simp only [St.at, St.set, St.get, getD_set _ _ _ _ hlt, hu, if_false]) ?_ ?_ ?_ ?_ ?_
     · simp only [St.at, St.set, St.get, getD_set _ _ _ _ hlt, if_true, callW, hloc']; simp
@@ -119,6 +137,7 @@ theorem nu_of_step {s s' : St} (hs : Step s s') : muLt2 s' s ∨ RetryStep s s' 
   case a7 t hlt hloc hg =>
     have hloc' : (s.th.getD t {}).loc = _ := hloc
     right
+    refine ⟨?_, t, hlt, RetryShape.a7 hloc hg⟩
     refine nu_le s _ t hlt (by simp [St.at, St.set])
       (fun u hu => by simp only [St.at, St.set, St.get, getD_set _ _ _ _ hlt, hu, if_false]) ?_ ?_ ?_ ?_ ?_
     · simp only [St.at, St.set, St.get, getD_set _ _ _ _ hlt, if_true, callW, hloc']; simp
@@ -129,6 +148,7 @@ theorem nu_of_step {s s' : St} (hs : Step s s') : muLt2 s' s ∨ RetryStep s s' 
   case a8 t hlt hloc hg =>
     have hloc' : (s.th.getD t {}).loc = _ := hloc
     right
+    refine ⟨?_, t, hlt, RetryShape.a8 hloc hg⟩
     refine nu_le s _ t hlt (by simp [St.at, St.set])
       (fun u hu => by simp only [St.at, St.set, St.get, getD_set _ _ _ _ hlt, hu, if_false]) ?_ ?_ ?_ ?_ ?_
     · simp only [St.at, St.set, St.get, getD_set _ _ _ _ hlt, if_true, callW, hloc']; simp
@@ -139,6 +159,7 @@ theorem nu_of_step {s s' : St} (hs : Step s s') : muLt2 s' s ∨ RetryStep s s' 
   case a9 t hlt hloc hg =>
     have hloc' : (s.th.getD t {}).loc = _ := hloc
     right
+    refine ⟨?_, t, hlt, RetryShape.a9 hloc hg⟩
     refine nu_le s _ t hlt (by simp [St.at, St.set])
       (fun u hu => by simp only [St.at, St.set, St.get, getD_set _ _ _ _ hlt, hu, if_false]) ?_ ?_ ?_ ?_ ?_
     · simp only [St.at, St.set, St.get, getD_set _ _ _ _ hlt, if_true, callW, hloc']; simp
@@ -149,6 +170,7 @@ theorem nu_of_step {s s' : St} (hs : Step s s') : muLt2 s' s ∨ RetryStep s s' 
   case a9timeout t hlt hloc hg =>
     have hloc' : (s.th.getD t {}).loc = _ := hloc
     right
+    refine ⟨?_, t, hlt, RetryShape.a9timeout hloc hg⟩
     refine nu_le s _ t hlt (by simp [St.at, St.set])
       (fun u hu => by simp only [St.at, St.set, St.get, getD_set _ _ _ _ hlt, hu, if_false]) ?_ ?_ ?_ ?_ ?_
     · simp only [St.at, St.set, St.get, getD_set _ _ _ _ hlt, if_true, callW, hloc']; simp
@@ -159,6 +181,7 @@ theorem nu_of_step {s s' : St} (hs : Step s s') : muLt2 s' s ∨ RetryStep s s' 
   case g0wait t hlt hloc hg =>
     have hloc' : (s.th.getD t {}).loc = _ := hloc
     right
+    refine ⟨?_, t, hlt, RetryShape.g0wait hloc hg⟩
     refine nu_le s _ t hlt (by simp [St.at, St.set])
       (fun u hu => by simp only [St.at, St.set, St.get, getD_set _ _ _ _ hlt, hu, if_false]) ?_ ?_ ?_ ?_ ?_
     · simp only [St.at, St.set, St.get, getD_set _ _ _ _ hlt, if_true, callW, hloc']; simp
@@ -169,6 +192,7 @@ theorem nu_of_step {s s' : St} (hs : Step s s') : muLt2 s' s ∨ RetryStep s s' 
   case g1 t hlt hloc hg =>
     have hloc' : (s.th.getD t {}).loc = _ := hloc
     right
+    refine ⟨?_, t, hlt, RetryShape.g1 hloc hg⟩
     refine nu_le s _ t hlt (by simp [St.at, St.set])
       (fun u hu => by simp only [St.at, St.set, St.get, getD_set _ _ _ _ hlt, hu, if_false]) ?_ ?_ ?_ ?_ ?_
     · simp only [St.at, St.set, St.get, getD_set _ _ _ _ hlt, if_true, callW, hloc']; simp
@@ -183,6 +207,7 @@ theorem nu_of_step {s s' : St} (hs : Step s s') : muLt2 s' s ∨ RetryStep s s' 
   case g2 t hlt hloc hg =>
     have hloc' : (s.th.getD t {}).loc = _ := hloc
     right
+    refine ⟨?_, t, hlt, RetryShape.g2 hloc hg⟩
     refine nu_le s _ t hlt (by simp [St.at, St.set])
       (fun u hu => by simp only [St.at, St.set, St.get, getD_set _ _ _ _ hlt, hu, if_false]) ?_ ?_ ?_ ?_ ?_
     · simp only [St.at, St.set, St.get, getD_set _ _ _ _ hlt, if_true, callW, hloc']; simp
@@ -193,6 +218,7 @@ theorem nu_of_step {s s' : St} (hs : Step s s') : muLt2 s' s ∨ RetryStep s s' 
   case g2timeout t hlt hloc hg =>
     have hloc' : (s.th.getD t {}).loc = _ := hloc
     right
+    refine ⟨?_, t, hlt, RetryShape.g2timeout hloc hg⟩
     refine nu_le s _ t hlt (by simp [St.at, St.set])
       (fun u hu => by simp only [St.at, St.set, St.get, getD_set _ _ _ _ hlt, hu, if_false]) ?_ ?_ ?_ ?_ ?_
     · simp only [St.at, St.set, St.get, getD_set _ _ _ _ hlt, if_true, callW, hloc']; simp
@@ -203,6 +229,7 @@ theorem nu_of_step {s s' : St} (hs : Step s s') : muLt2 s' s ∨ RetryStep s s' 
   case g3 t hlt hloc hg =>
     have hloc' : (s.th.getD t {}).loc = _ := hloc
     right
+    refine ⟨?_, t, hlt, RetryShape.g3 hloc hg⟩
     refine nu_le s _ t hlt (by simp [St.at, St.set])
       (fun u hu => by simp only [St.at, St.set, St.get, getD_set _ _ _ _ hlt, hu, if_false]) ?_ ?_ ?_ ?_ ?_
     · simp only [St.at, St.set, St.get, getD_set _ _ _ _ hlt, if_true, callW, hloc']; simp
@@ -235,6 +262,11 @@ theorem nu_of_step {s s' : St} (hs : Step s s') : muLt2 s' s ∨ RetryStep s s' 
         | (intro h2; rcases List.mem_append.mp h2 with h3 | h3
            · exact h3
            · simp at h3; exact absurd h3 hu))
+
+theorem nu_of_step {s s' : St} (hs : Step s s') : muLt2 s' s ∨ RetryStep s s' := by
+  rcases nu_of_step_shape hs with h | h
+  · exact Or.inl h
+  · exact Or.inr h.1
 
 /-! ### counting: an execution contains boundedly many steps that are not retry-loop iterations -/
 
